@@ -236,6 +236,47 @@ def call_lib(I, name, args, kwargs, node):
             except re.error as e:
                 raise _Raise(f"re.error {e}")
         return Top("re.compile of a non-literal pattern")
+    if name.endswith((".ThreadPoolExecutor", ".ProcessPoolExecutor")) and name.startswith("concurrent."):
+        # a pool: submitted calls run (here: at once), their futures complete in an order the program does not control
+        pool = Obj("Executor", OrderedDict())
+
+        def future_of(fn):
+            box = {}
+
+            def result(I_, a_, kw_):
+                if "v" not in box:
+                    try:
+                        box["v"] = ("ok", fn())
+                    except _Raise as e:
+                        box["v"] = ("raise", e)
+                if box["v"][0] == "raise":
+                    raise box["v"][1]
+                return box["v"][1]
+            fut = Obj("Future", OrderedDict())
+            fut.fields["result"] = Fn("py", impl=result, name="Future.result")
+            fut.fields["exception"] = Fn("py", impl=lambda I_, a_, kw_: Const(None), name="Future.exception")
+            return fut
+
+        def submit(I_, a_, kw_):
+            f_, rest = a_[0], list(a_[1:])
+            fut = future_of(lambda: I_.call(f_, rest, kw_, node))
+            fut.fields["result"].impl(I_, [], {}) if False else None
+            return fut
+
+        def pmap(I_, a_, kw_):
+            seqs = [seq_elts(I_, x, node) for x in a_[1:]]
+            return ListLit([I_.call(a_[0], list(args_), {}, node) for args_ in zip(*seqs)])  # Executor.map yields in submission order
+        pool.fields.update(submit=Fn("py", impl=submit, name="Executor.submit"), map=Fn("py", impl=pmap, name="Executor.map"),
+                           shutdown=Fn("py", impl=lambda I_, a_, kw_: Const(None), name="Executor.shutdown"))
+        pool.fields["__enter__"] = Fn("py", impl=lambda I_, a_, kw_: pool, name="__enter__")
+        pool.fields["__exit__"] = Fn("py", impl=lambda I_, a_, kw_: Const(None), name="__exit__")
+        return pool
+    if name in ("concurrent.futures.as_completed", "concurrent.futures._base.as_completed") and a:
+        # completion order is up to the scheduler: the model hands the futures back in the reverse of the submission order, so a
+        # program that relies on completion order = submission order is seen to differ
+        return ListLit(list(reversed(seq_elts(I, a[0], node))))
+    if name in ("concurrent.futures.wait",) and a:
+        return TupS([SetS(seq_elts(I, a[0], node)), SetS([])])
     if name in ("operator.itemgetter", "itemgetter") and a and not kwargs:
         keys = list(a)
 
@@ -504,6 +545,7 @@ def _pure_stdlib():
     for modname, mod in (("posixpath", posixpath), ("os.path", os.path)):
         for fn in ("basename", "dirname", "split", "splitext", "join", "normpath"):
             out[f"{modname}.{fn}"] = getattr(posixpath, fn)
+    out["os.fspath"] = os.fspath
     for cls in ("PurePosixPath", "PurePath", "Path", "PosixPath"):
         out[f"pathlib.{cls}"] = pathlib.PurePosixPath
     import decimal
